@@ -6,7 +6,7 @@ every DpPacketOut (port, frame serialised at event time) and every message the s
 operation, the exception class if the handler raised, and the port-stats reply at the end.
 Model side: lean/Drivers/C12.lean (Model/Actions.lean + the declarative Spec/ActionsSpec.lean).
 Oracle: an independent re-statement of the property on raw bytes (below: `spec_rewrite`, `expand`, counter sums)."""
-import struct, copy, re
+import struct, copy, re, os
 import common, poxenv
 from common import Check
 
@@ -167,7 +167,7 @@ class C12(Check):
             "config-bit combinations on each port against FLOOD/ALL/explicit/IN_PORT outputs, every single action and every ordered pair of actions around an output "
             "on 12 frame shapes; generator = action lists to length 6 over the 12 action types and the virtual ports, random 7-bit configs on all three ports; "
             "non-trivial = at least one frame or packet-in leaves the switch and (a rewrite precedes an output or a non-default config bit is set)")
-    coverage_cases = 400
+    coverage_cases = 4000
     search_budget = {"quick": 3000, "thorough": 30000}
 
     def setup(self):
@@ -200,7 +200,7 @@ class C12(Check):
 
     def impl(self, case):
         of = self.of
-        node = self.swnet.SwitchNode(dpid=1, ports=NPORTS, max_buffers=4096, miss_send_len=128)
+        node = self.swnet.SwitchNode(dpid=1, ports=case.get("nports", NPORTS), max_buffers=4096, miss_send_len=128)
         sw = node.sw
         log = []
         sw.addListener(self.DpPacketOut, lambda e: log.append({"k": "frame", "port": e.port.port_no, "data": e.packet.pack().hex()}))
@@ -271,8 +271,11 @@ class C12(Check):
     # ------------------------------------------------------------------ model side
     def model_request(self, case):
         if case.get("oracle_only"): return None
-        ports = [{"no": i, "hw": self.hw(i).hex(), "config": PC_NO_STP, "state": 0} for i in range(1, NPORTS + 1)]
-        return {"var": {"d7": False, "d8": False, "c121": False}, "ports": ports, "ops": case["ops"]}
+        ports = [{"no": i, "hw": self.hw(i).hex(), "config": PC_NO_STP, "state": 0} for i in range(1, case.get("nports", NPORTS) + 1)]
+        # the model follows the repaired code; C12_UNREPAIRED=d7,d8,c121 selects the unrepaired lines instead (for a tree in
+        # which a proposed fix was not taken and the defect is listed as a known finding)
+        un = [x.strip() for x in os.environ.get("C12_UNREPAIRED", "").split(",")]
+        return {"var": {"d7": "d7" in un, "d8": "d8" in un, "c121": "c121" in un}, "ports": ports, "ops": case["ops"]}
 
     def model_obs(self, case, resp):
         if "error" in resp: return resp
@@ -617,10 +620,20 @@ class C12(Check):
         for c in (PC_NO_RECV, PC_NO_RECV_STP, PC_NO_RECV | PC_NO_RECV_STP):
             cases.append({"ops": self.portmods([c, None, None]) + [{"op": "flow", "in_port": None, "acts": [out1(P_FLOOD)]},
                                   {"op": "rx", "port": 1, "data": stp}, {"op": "rx", "port": 1, "data": tcp}], "wf": True, "canon": True})
+        # (f) the witnesses of Properties/C12.lean (`enqueue_d7_defect`, `table_recount_d8_defect`, `vlan_pcp_c121_defect`) replayed on
+        #     the implementation: four ports, port 2 NO_FLOOD, port 3 NO_FWD, one entry for in_port 3, a 16-byte frame
+        small = "66778899aabb00112233445588b50102"
+        setup = [{"op": "portmod", "port": 2, "hw": self.hw(2).hex(), "config": PC_NO_FLOOD, "mask": PC_NO_FLOOD},
+                 {"op": "portmod", "port": 3, "hw": self.hw(3).hex(), "config": PC_NO_FWD, "mask": PC_NO_FWD},
+                 {"op": "flow", "in_port": 3, "acts": [{"a": "set_vlan_vid", "v": 7}, {"a": "output", "port": P_ALL, "max_len": 0}]}]
+        for name, ing, acts in (("enqueue_d7_defect", 1, [{"a": "enqueue", "port": 4, "queue": 0}]),
+                                ("table_recount_d8_defect", 3, [{"a": "output", "port": P_TABLE, "max_len": 0}]),
+                                ("vlan_pcp_c121_defect", 1, [{"a": "set_vlan_pcp", "v": 9}, {"a": "output", "port": 4, "max_len": 0}])):
+            cases.append({"nports": 4, "witness": name, "ops": setup + [{"op": "pktout", "in_port": ing, "data": small, "acts": acts}], "wf": True, "canon": True})
         return cases
 
     def generate(self, rng, tier):
-        n = 700 if tier == "quick" else 14000
+        n = 2500 if tier == "quick" else 100000
         for i in range(n):
             r = rng.random()
             canon = r < 0.8
